@@ -12,4 +12,8 @@ def configLocks : List (String × List String) := [
   ("unsyncedConfigAccess", [])
 ]
 
+/-- admin.go newAdminHandler: every addRoute / addRouteWithMetrics call as `pattern|handler|nesting`
+    (nesting 0 = not inside any if/for/switch: registered for the local and the remote endpoint alike) -/
+def adminRoutes : List String := ["\"/\"+rawConfigKey+\"/\"|AdminHandlerFunc(handleConfig)|0", "\"/id/\"|AdminHandlerFunc(handleConfigID)|0", "\"/stop\"|AdminHandlerFunc(handleStop)|0", "\"/debug/pprof/\"|http.HandlerFunc(pprof.Index)|0", "\"/debug/pprof/cmdline\"|http.HandlerFunc(pprof.Cmdline)|0", "\"/debug/pprof/profile\"|http.HandlerFunc(pprof.Profile)|0", "\"/debug/pprof/symbol\"|http.HandlerFunc(pprof.Symbol)|0", "\"/debug/pprof/trace\"|http.HandlerFunc(pprof.Trace)|0", "\"/debug/vars\"|expvar.Handler()|0", "route.Pattern|route.Handler|2"]
+
 end CaddyModel.Gen
